@@ -33,6 +33,7 @@ import DafRel.Lemmas.JoinCommon
 import DafRel.Lemmas.SqlHistory
 import DafRel.Lemmas.ProcMulti
 import DafRel.Lemmas.Backtrack
+import DafRel.Bridge.RelOps
 import DafRel.Lemmas.BacktrackJoin
 
 namespace DafRel.Props.C14
@@ -296,5 +297,10 @@ theorem processed_trees_wellformed (σ : Leaves) (sq0 : SqlState) (h0 : sq0.payl
     (res.get t).WF ∧ (res.get t).IterOKs s'.st ∧ (res.get t).engine = t.engine := by
   obtain ⟨_, _, P⟩ := process_multi_iter σ h0 t fuel matAs s reg hm hsql T hf res b s' h
   exact ⟨P.inv.wf, P.exec, P.engine⟩
+
+/-- Tie to the source: `Join._begin_apply` (which resolves a join's common columns - `join_common_columns_resolved` -
+and checks them against both operands) is, as translated from the current Python source on this run, the model's. -/
+theorem bridge_join_begin_apply (j : JoinOp) (l r : Rel) : Gen.Join_begin_apply j l r = joinBeginApply j l r :=
+  Bridge.Join_begin_apply_eq j l r
 
 end DafRel.Props.C14
